@@ -62,7 +62,24 @@ def boot(threaded_selecthub=False, quiet=True):
     finally:
       sys.stdout = old
   _booted = True
+  os.register_at_fork(after_in_child=_fresh_pinger)
   return pox.core.core
+
+
+def _fresh_pinger():
+  """Worker processes forked after boot() (multiprocessing pools of core.replay / run_driver) inherit the ONE
+  pinger pipe of the core scheduler's SelectHub: a wake-up byte written in one process could be swallowed by a
+  sibling's pongAll(), and a newly registered timer then never gets adopted by that hub (seen about once in a
+  thousand behaviours).  Every process gets its own pipe."""
+  try:
+    import pox.core
+    import pox.lib.util
+    hub = pox.core.core.scheduler._selectHub
+    hub._pinger = pox.lib.util.makePinger()
+    if not hub._incoming.empty():
+      hub._pinger.ping()
+  except Exception:
+    pass
 
 
 def install_clock(*modules):
